@@ -388,7 +388,7 @@ theorem onEstablished_gone {o : Nat} {s : Sess} (h : Gone o s) (beh : List HAct)
         split
         · exact GoneRel.refl h1
         · exact settle_gone h1 _ _
-  | invocation id reg p rp => exact (goneLiftX o).onInvocation h beh id reg p rp
+  | invocation id reg p rp => exact (goneLiftX o).onInvocation h beh id reg p _
   | interrupt id => exact (goneLiftX o).settleInv h id _
   | welcome sid => exact out_gone h (by simp [onEstablished, isInvoke])
   | abort => exact out_gone h (by simp [onEstablished, isInvoke])
